@@ -8,6 +8,10 @@ Observation hooks are installed from outside (no source hooks):
     `_train_new_row` are wrapped to record the row a fold-in used.  Trained state is read back through
     public attributes only (`user_features_`, `item_features_`, `bias_`); private caches are not read.
   * FunkSVD: `lenskit.funksvd.Context` is wrapped to record the sample arrays handed to the trainer.
+The way the seed reaches a training is part of the case (`seed_route`, see `rng_input` / `Seeded`): in the options as an
+integer, an integer sequence, a SeedSequence, a Generator or a BitGenerator, or NOT in the options at all, with a
+generator installed through `lenskit.random.set_global_rng` right before `train()`.  The process-wide generator is
+put back as it was as soon as `train()` returns, so no other case sees it.
 A case may carry a training history (`case["trainings"]`): all its trainings run on ONE scorer object,
 each followed by its own queries; the observation of the j-th later training is `obs["later"][j-1]`.
 """
@@ -24,7 +28,7 @@ _ready = False
 
 def setup():
     global _ready, np, pd, torch, DatasetBuilder, ItemList, RecQuery, TrainingOptions
-    global BiasedMFScorer, ImplicitMFScorer, FunkSVDScorer, ex_mod, fsvd_mod
+    global BiasedMFScorer, ImplicitMFScorer, FunkSVDScorer, ex_mod, fsvd_mod, lk_random
     if _ready:
         return
     common.use_repo()
@@ -37,6 +41,7 @@ def setup():
     from lenskit.training import TrainingOptions
     import lenskit.als._explicit as ex_mod
     import lenskit.funksvd as fsvd_mod
+    import lenskit.random as lk_random
 
     torch.set_num_threads(1)
     _ready = True
@@ -138,8 +143,65 @@ def phase_cases(case):
     return out
 
 
-def train_options(pc):
-    return TrainingOptions(rng=pc["seed"], retrain=pc.get("retrain", True))
+SEED_FORMS = ("int", "list", "seedseq", "generator", "bitgen")
+
+
+def seed_route(pc):
+    """(where, form): where the seed is put ("options": TrainingOptions(rng=...); "global": nothing in the options, a
+    generator installed with lenskit.random.set_global_rng beforehand) and in which representation"""
+    r = pc.get("seed_route") or "int"
+    where, form = ("global", r[len("global-"):]) if r.startswith("global-") else ("options", r)
+    assert form in SEED_FORMS, r
+    return where, form
+
+
+def rng_input(pc):
+    """A NEW seed-like / generator-like value for the training's seed in the representation the case asks for; equal
+    calls give equal sources (a Generator / BitGenerator is stateful: every use gets its own)."""
+    s = pc["seed"]
+    form = seed_route(pc)[1]
+    if form == "int":
+        return s
+    if form == "list":
+        return [s & 0xFFFF, s >> 16, 20]
+    if form == "seedseq":
+        return np.random.SeedSequence(s)
+    if form == "generator":
+        return np.random.default_rng(s)
+    return np.random.PCG64(s)
+
+
+def seed_generator(pc):
+    """A generator equal to the one the training draws from: SPEC 7 -- `numpy.random.default_rng` of the seed source --
+    whether the source sits in the options or was installed process-wide."""
+    return np.random.default_rng(rng_input(pc))
+
+
+class Seeded:
+    """`with Seeded(pc) as options: model.train(ds, options)`: the seed of `pc` handed over by the route of `pc`.  For the
+    process-wide route the previously installed generator is put back afterwards (through the module attribute when it
+    exists; otherwise a fresh-entropy generator is installed, which is what "nothing installed" means to callers)."""
+
+    def __init__(self, pc):
+        self.pc = pc
+        self.where = seed_route(pc)[0]
+
+    def __enter__(self):
+        retrain = self.pc.get("retrain", True)
+        if self.where == "options":
+            return TrainingOptions(rng=rng_input(self.pc), retrain=retrain)
+        self.had = hasattr(lk_random, "_global_rng")
+        self.saved = getattr(lk_random, "_global_rng", None)
+        lk_random.set_global_rng(rng_input(self.pc))
+        return TrainingOptions(retrain=retrain)
+
+    def __exit__(self, *exc):
+        if self.where == "global":
+            if self.had:
+                lk_random._global_rng = self.saved
+            else:
+                lk_random.set_global_rng(None)
+        return False
 
 
 def run_als(case):
@@ -221,7 +283,8 @@ def als_phase(m, pc, rec, explicit, folds, embeds):
     rec["steps"], rec["mats"], rec["regs"] = [], {}, {}
     obs = {"users": ds.users.ids().tolist(), "items": ds.items.ids().tolist()}
     try:
-        m.train(ds, train_options(pc))
+        with Seeded(pc) as options:
+            m.train(ds, options)
     except Exception as e:  # the linear solver may fail (no ridge); anything else is reported by the oracle
         obs["error"] = err_kind(e)
         obs["msg"] = str(e)[:120]
@@ -260,14 +323,18 @@ def hexf(x):
     return float(x).hex()
 
 
-def run_funksvd(case):
-    setup()
+def make_funksvd(case):
     rngv = case["range"]
-    m = FunkSVDScorer(
+    return FunkSVDScorer(
         features=case["k"], epochs=case["epochs"], learning_rate=float(fparse(case["lrate"])),
         regularization=float(fparse(case["reg"])), damping=damping_arg(case),
         range=None if rngv is None else (float(fparse(rngv[0])), float(fparse(rngv[1]))),
     )
+
+
+def run_funksvd(case):
+    setup()
+    m = make_funksvd(case)
     out = []
     for pc in phase_cases(case):
         o = funksvd_phase(m, pc)
@@ -294,7 +361,8 @@ def funksvd_phase(m, pc):
     fsvd_mod.Context = rec_ctx
     obs = {"users": ds.users.ids().tolist(), "items": ds.items.ids().tolist()}
     try:
-        m.train(ds, train_options(pc))
+        with Seeded(pc) as options:
+            m.train(ds, options)
     except Exception as e:
         obs["error"] = err_kind(e)
         obs["msg"] = str(e)[:120]
@@ -306,15 +374,32 @@ def funksvd_phase(m, pc):
     obs["P"] = [[hexf(x) for x in row] for row in m.user_features_.tolist()]
     obs["Q"] = [[hexf(x) for x in row] for row in m.item_features_.tolist()]
     obs["bias"] = bias_obs(m.bias_)
-    # the seeded sample order, recomputed from the same generator; the COO matrix in its stored order
+    # the seeded sample order, recomputed from the same source: the shuffle of 0..n-1 drawn from a generator equal to
+    # the one the training was given (in the options, or installed process-wide); the COO matrix in its stored order
     coo = ds.interaction_matrix(format="pandas", layout="coo", field="rating")
     shuf = np.arange(len(coo), dtype=np.int_)
-    np.random.default_rng(pc["seed"]).shuffle(shuf)
+    seed_generator(pc).shuffle(shuf)
+    stored = {
+        "users": np.asarray(coo["user_num"]).tolist(), "items": np.asarray(coo["item_num"]).tolist(),
+        "ratings": [hexf(x) for x in np.asarray(coo["rating"], dtype=np.float64).tolist()],
+    }
+    obs["stored"] = stored
+    obs["order"] = shuf.tolist()
     coo = coo.iloc[shuf, :]
     obs["expected_order"] = {
         "users": np.asarray(coo["user_num"]).tolist(), "items": np.asarray(coo["item_num"]).tolist(),
         "ratings": [hexf(x) for x in np.asarray(coo["rating"], dtype=np.float64).tolist()],
     }
+    # a second training from an equal seed source, on a new object of the same configuration
+    if captured:
+        m2 = make_funksvd(pc)
+        try:
+            with Seeded(pc) as options:
+                m2.train(ds, options)
+            obs["twin"] = {"error": None, "P": [[hexf(x) for x in row] for row in m2.user_features_.tolist()],
+                           "Q": [[hexf(x) for x in row] for row in m2.item_features_.tolist()]}
+        except Exception as e:
+            obs["twin"] = {"error": err_kind(e), "msg": str(e)[:120]}
     qobs = []
     for q in pc["queries"]:
         cand = ItemList(item_ids=np.array(q["items"], dtype=np.int64))
